@@ -348,8 +348,11 @@ example : Loop.asks none (Loop.init 0 3000) [(0, 20), (220, 20), (440, 20), (145
 
 `Zc.GenFn.History` is regenerated from the *bodies* of `QuestionHistory`'s methods (`tools/gen_fn.py`);
 `GenFacts/FnHistory.lean` proves that the hand-written `History` model above computes what those bodies compute.
-So the suppression clause holds of the translated source itself, and a change in a method body breaks a named
-lemma of `FnHistory` at stage P. -/
+**What this transports**: the suppression clause (the iff of `suppresses`) and the exactness facts below are stated of the
+generated functions themselves, and `C13_history_is_source` says the model's history is the translated one along every sequence of
+`add_question_at_time`/`async_expire`/`clear`; a change in a method body that changes what it computes breaks a named lemma of
+`FnHistory` at stage P.  **What it does not**: the callers (`askType`/`addQuestion` of the browser, the query handler's use of
+`suppresses`) are hand-written models; the theorems about them are not re-proved over the generated functions. -/
 section Tie
 open Zc.Py Zc.GenFn.History Zc.GenFacts.FnHistory
 
